@@ -413,6 +413,11 @@ def c09(ck):
         files = record_and_validate_machine(ck, ss, "c09" + tag, jit=jit, shards=8, validate="Trace_Clock")
         if tag == "instr":
             ck.sample({"trace_excerpt": head_lines(files[0], 5)[1:]})
+    # dispatches whose own pushes cancel them (stack pointer on IE / IF) still charge their five cycles: the pending
+    # cycles after a dispatch are part of the logged projection that Trace_Machine compares with Machine.tla
+    cancel = gbprog.dispatch_cancel_programs(rng)
+    record_and_validate_machine(ck, cancel, "c09cancel", jit=False, shards=4)
+    record_and_validate_machine(ck, [dict(s, mode="block") for s in cancel], "c09cancelj", jit=True, shards=4)
 
 
 # ------------------------------------------------------------------- C12
@@ -791,8 +796,18 @@ def c01_c02(ck, owner):
         if m.get("kind") == "crash" and owner == "C01":
             ck.mismatch(m, "block-crash")
     # the same blocks as whole emulator steps in both builds (device catch-up and interrupt check included);
-    # a difference in the cycles the CPU reports belongs to C02, any other first difference to C01
-    pair_traces(ck, blocks[:(20000 if thorough else 2000)], "blocks", "block", owner, shards=12)
+    # a difference in the cycles the CPU reports belongs to C02, any other first difference to C01;
+    # plus blocks of several hundred instructions (more than 255 machine cycles in one block) and
+    # instructions that straddle the end of ROM bank 0 with banks other than 1 mapped
+    extra = gbprog.long_blocks(300 if thorough else 30, rng) + gbprog.straddle_programs(rom_only=True)
+    pair_traces(ck, blocks[:(20000 if thorough else 2000)] + extra, "blocks", "block", owner, shards=12)
+    lb = os.path.join(rundir(), "longblocks.ndjson")
+    gbprog.write_scenarios(lb, extra)
+    for m in gbv(["blocks", "--scenarios", lb]):
+        if m.get("kind") == "pair-block" and ((m["class"] == "cycles") == (owner == "C02")):
+            ck.mismatch(m, "longblock-%s-%s" % (m["class"], "-".join(m["fields"][:3])))
+        if m.get("kind") == "crash" and owner == "C01":
+            ck.mismatch(m, "longblock-crash")
 
 
 @prop("C01")
@@ -870,9 +885,19 @@ def c03(ck):
         hists += vlib.read_ndjson(f)
     hists.sort(key=lambda h: h["id"])
     ck.sample(hists[700])
-    for cart in ((1, 2, 0), (0x11, 2, 0)):
-        tag = "mbc%d" % (1 if cart[0] == 1 else 3)
-        scs = [gbprog.cache_history_scenario(h["id"], h["steps"], cart, bankreg=0x2000 if h["id"] % 2 == 0 else 0x3FFF) for h in hists]
+    # second alphabet: bank switches performed by a routine in work RAM (interpreted) that jumps straight into the bank
+    files9 = gen_sharded(ck, "Gen_CacheHist", "cachehist9", 4, extra_env={"MAXLEN": 4 if thorough else 3, "NSYM": 9})
+    hists9 = []
+    for f in files9:
+        hists9 += vlib.read_ndjson(f)
+    hists9 = [h for h in hists9 if any(x >= 6 for x in h["steps"])]
+    for h in hists9:
+        h["id"] += 100000
+    # three configurations: MBC1 and MBC3 with 8 banks, MBC3 with 64 banks and banks that differ by 32
+    for cart, bankmap in (((1, 2, 0), (1, 2, 3)), ((0x11, 2, 0), (1, 2, 3)), ((0x11, 5, 0), (1, 33, 2))):
+        tag = "mbc%d_%d" % (1 if cart[0] == 1 else 3, cart[1])
+        sel = hists + hists9 if cart != (0x11, 2, 0) else [h for h in hists if h["id"] % 3 == 0] + hists9
+        scs = [gbprog.cache_history_scenario(h["id"], h["steps"], cart, bankreg=0x2000 if h["id"] % 2 == 0 else 0x3FFF, bankmap=bankmap) for h in sel]
         warm = record_and_validate_machine(ck, scs, "c03w" + tag, jit=True, shards=8)
         cold = record_and_validate_machine(ck, scs, "c03c" + tag, jit=True, shards=8, cold=True)
         intp = record_and_validate_machine(ck, scs, "c03i" + tag, jit=False, shards=8)
@@ -921,7 +946,8 @@ def c04(ck):
     mc = tlc("MC_CodeCache", workers=4, coverage=True, timeout=1800)
     ck.add_tlc("MC_CodeCache", mc)
     n = 1500 if thorough else 60
-    scs = gbprog.structured_programs(n, rng)
+    scs = gbprog.structured_programs(n, rng) + gbprog.structured_programs(n // 3, rng, start_id=2200000, mbc=0x33) \
+        + gbprog.alu_table_programs(rng)
     # the interpreter build steps one instruction per update(), the jit build one block: compare like with like
     # by stepping both block by block (Core::run_code_block; a halted CPU ticks through update())
     for s in scs:
